@@ -1,4 +1,4 @@
-import NeumannModel.Vault.Lemmas
+import NeumannModel.Vault.Inv
 /-
   C14 — "Vault: no access without a live grant, no plaintext at rest".
   ONLY property statements and their non-vacuity examples; helpers are in `Bfs.lean` / `Lemmas.lean`.
@@ -170,6 +170,32 @@ theorem access_requires_live_grant_witness : ¬ AccessRequiresLiveGrant := by
     rw [this] at hsrc
     revert hsrc; decide
   · exact absurd (hlive 5 rfl) (by omega)
+
+/-- PARTIAL (the read paths only — exactly the paths on which the code runs `cleanup_expired_grants`): for EVERY
+    configuration, EVERY history and EVERY time `t`, a successful non-root `get`, and every name a non-root `list`
+    returns, is backed by a grant edge that is unrevoked AND unexpired at `t` (and reachable / sufficient as above).
+    Proof: invariant `TI` (every edge issued with an expiry keeps its (entity, secret, expiry) entry in the TTL
+    tracker, through all 12 operations) + "after cleanup at `t` every remaining edge is live at `t`". -/
+theorem read_requires_live_grant_partial (pol : Policy) (a b c : Nat) (h : List (Nat × Op)) (t req : Nat)
+    (hr : req ≠ root) :
+    (∀ sec, (step (run (init pol a b c) h) t (.get req sec)).2.isOk = true →
+        Justified ((run (init pol a b c) h).cleanup t) req sec .read (LiveAt t)) ∧
+    (∀ p names, (step (run (init pol a b c) h) t (.list req p)).2 = .names names →
+        ∀ n ∈ names, Justified ((run (init pol a b c) h).cleanup t) req n .read (LiveAt t)) := by
+  have hinv := run_inv h _ (init_inv pol a b c)
+  have hlive := (hinv.cleanup t).2
+  constructor
+  · intro sec hok
+    exact (checkAccess_ok (get_ok hok) hr).weaken (fun e he _ => hlive e he)
+  · intro p names hn n hmem
+    exact (hasAccess_justified (list_names hn n hmem) hr).weaken (fun e he _ => hlive e he)
+
+/-- non-vacuity and the contrast with the write path, same history: at t=10 the grant that expired at t=5 no
+    longer lets identity 1 read or list, but still lets it overwrite -/
+example :
+    let s := run (init) [(0, .set 0 1 7 3), (0, .grantTtl 0 1 1 .write 5)]
+    (step s 4 (.get 1 1)).2 = .value 7 ∧ (step s 10 (.get 1 1)).2 = .err .denied ∧
+    (step s 10 (.list 1 .all)).2 = .names [] ∧ (step s 10 (.set 1 1 8 3)).2 = .ok := by decide
 
 /-! ## revocation and deletion act at once -/
 
